@@ -67,8 +67,9 @@ def generate(rng, tier, index):
         ops.append({"s": 0, "op": "bool_var"} if d["t"] == "b" else {"s": 0, "op": "int_var", "lo": d["lo"], "hi": d["hi"]})
     keys = set()
     witness = refsem.gen_witness(rng, decls) if rng.random() < 0.75 else []
-    budget_hi = rng.choice([3, 6, 10, 18])
-    n_rounds = rng.choice([1, 1, 1, 2, 3])
+    big = tier == "thorough" and rng.random() < 0.3
+    budget_hi = rng.choice([3, 6, 10, 18]) if not big else rng.choice([10, 18, 30])
+    n_rounds = rng.choice([1, 1, 1, 2, 3]) if not big else rng.choice([2, 3, 4, 5])
     key_mode = rng.choice(["none", "some", "some", "all", "all"])
     for rnd in range(n_rounds):
         g = refsem.Gen(rng, decls, graph_nodes=(route == "C" and sc["backend"] != "sugar" and rng.random() < 0.3))
